@@ -118,6 +118,18 @@ def rule_call_direct(prog, rep, tier):
                 if _s or _ss:
                     continue
                 fe = fe.args[0]
+            if isinstance(fe, ast.Name) and prog.lookup(fe.id, call)[0] in ("local", "param"):
+                # a local alias: definite only when bound once to partial(f, ...) (its bound arguments are added)
+                b = prog.lookup(fe.id, call)
+                defs = [n2 for n2 in ast.walk(b[1]) if isinstance(n2, ast.Assign) and any(isinstance(t, ast.Name) and t.id == fe.id for t in n2.targets)] if b[0] == "local" else []
+                if len(defs) == 1 and isinstance(defs[0].value, ast.Call) and prog.ext_name(defs[0].value.func, defs[0].value) == "functools.partial" and defs[0].value.args:
+                    pc = defs[0].value
+                    extra_pos, extra_kw, _s, _ss, _ = _call_shape(prog, folder, pc, {}, skip_args=1)
+                    if _s or _ss:
+                        continue
+                    fe = pc.args[0]
+                else:
+                    continue
             if isinstance(fe, (ast.Name, ast.Attribute)):
                 tg = [t for t in prog.resolve_expr_fn(fe, call) if isinstance(t, (FunctionInfo, ClassInfo))]
                 if len(tg) == 1:
@@ -293,18 +305,28 @@ def rule_call_getattr(prog, rep, tier, anchors=("gen.gen",)):
         ordinal = 0
         for c in sorted((c for c in ast.walk(fi.node) if isinstance(c, ast.Call)), key=lambda c: (c.lineno, c.col_offset)):
             g = c.func
+            if isinstance(g, ast.Name) and prog.lookup(g.id, c)[0] == "local":
+                defs = [n2 for n2 in ast.walk(fi.node) if isinstance(n2, ast.Assign) and any(isinstance(t, ast.Name) and t.id == g.id for t in n2.targets)]
+                if len(defs) == 1:
+                    g = defs[0].value
             if not (isinstance(g, ast.Call) and isinstance(g.func, ast.Name) and g.func.id == "getattr" and len(g.args) >= 2):
                 continue
             b = prog.lookup(g.args[0].id, g) if isinstance(g.args[0], ast.Name) else None
             if not b or b[0] != "module":
                 continue
             ordinal += 1
-            free = {nm.id for nm in ast.walk(c) if isinstance(nm, ast.Name)}
+            free = {nm.id for nm in ast.walk(c) if isinstance(nm, ast.Name)} | {nm.id for nm in ast.walk(g) if isinstance(nm, ast.Name)}
+            for nm in list(free):
+                if prog.lookup(nm, c)[0] == "local":
+                    for d in [n2 for n2 in ast.walk(fi.node) if isinstance(n2, ast.Assign) and any(isinstance(t, ast.Name) and t.id == nm for t in n2.targets)]:
+                        free |= {x.id for x in ast.walk(d.value) if isinstance(x, ast.Name)}
             dom = {}
             for v in sorted(free):
                 bb = prog.lookup(v, c)
                 if bb[0] == "param" and bb[1] is fi.node and v in choices:
                     dom[v] = sorted(choices[v])
+                elif bb[0] == "local" and v in {x.id for x in ast.walk(g.args[1]) if isinstance(x, ast.Name)} | {x.id for x in ast.walk(c) if isinstance(x, ast.Name)} and _is_bool_switch(fi.node, v):
+                    dom[v] = [True, False]
                 elif bb[0] == "param" and isinstance(bb[1], ast.Lambda) and v in {x.id for x in ast.walk(g.args[1]) if isinstance(x, ast.Name)} | \
                         {x.id for k in c.keywords if k.arg is None for t in ast.walk(k.value) if isinstance(t, ast.IfExp) for x in ast.walk(t.test) if isinstance(x, ast.Name)}:
                     # a lambda parameter used as a switch in the name / kwargs expression
@@ -341,10 +363,20 @@ def rule_call_getattr(prog, rep, tier, anchors=("gen.gen",)):
         raise AnalysisError("CALL: only %d getattr-dispatch instances found in %s" % (n, anchors))
 
 
+def _is_bool_switch(fn_node, name):
+    """a local assigned once from a boolean expression (isinstance/or/and/comparison) and used only as a test"""
+    defs = [n for n in ast.walk(fn_node) if isinstance(n, ast.Assign) and any(isinstance(t, ast.Name) and t.id == name for t in n.targets)]
+    if len(defs) != 1:
+        return False
+    v = defs[0].value
+    booly = isinstance(v, (ast.BoolOp, ast.Compare)) or (isinstance(v, ast.Call) and isinstance(v.func, ast.Name) and v.func.id in ("isinstance", "isfunction", "callable", "bool", "hasattr"))
+    return booly and _used_only_as_test(fn_node, name)
+
+
 def _used_only_as_test(root, name):
     for n in ast.walk(root):
         if isinstance(n, ast.Name) and n.id == name and isinstance(n.ctx, ast.Load):
             p = n._parent
-            if not (isinstance(p, ast.IfExp) and p.test is n):
+            if not ((isinstance(p, (ast.IfExp, ast.If)) and p.test is n) or (isinstance(p, ast.UnaryOp) and isinstance(p.op, ast.Not))):
                 return False
     return True
